@@ -61,7 +61,7 @@ def gen(S, tier):
     style = {
         "coding": w.chance(0.2), "preamble_docstring": w.chance(0.3), "markup": w.chance(0.3),
         "bad_markup": w.chance(0.12), "multiline_string": w.chance(0.3), "multiline_call": w.chance(0.3),
-        "no_trailing_lines": w.chance(0.2),
+        "no_trailing_lines": w.chance(0.2), "odd_separators": w.chance(0.15),
     }
     sc = {
         "depth": depth, "recursion": w.pick([0, 0, 0, 2, 5, 20]) if depth <= 6 else 0, "style": style,
@@ -72,6 +72,7 @@ def gen(S, tier):
         # the same exception rendered a second time with another ignore pattern (a fresh trace object
         # and a fresh IO): what the first rendering left behind must not influence the second
         "ignore2": c.pick([None, None, None, "none", "some", "all"]),
+        "same_trace": c.chance(0.5), "verbosity2": c.pick([1, 2, 4]),
     }
     return sc
 
@@ -298,8 +299,12 @@ def _run(sc, res, log, store, r):
         out2 = SimOutputStream("out2", log, ansi=sc["ansi"], utf8=sc["utf8"])
         err2 = SimOutputStream("err2", log, ansi=sc["ansi"], utf8=sc["utf8"])
         io2 = IO(Input(SimInputStream(log, [])), Output(out2, fm), Output(err2, fm))
-        io2.set_verbosity(sc["verbosity"])
-        trace2 = ExceptionTrace(exc)
+        v2 = sc.get("verbosity2", sc["verbosity"]) if sc.get("same_trace") else sc["verbosity"]
+        io2.set_verbosity(v2)
+        # either a fresh trace object, or the SAME object re-rendered at another verbosity
+        trace2 = trace if sc.get("same_trace") else ExceptionTrace(exc)
+        if sc.get("same_trace"):
+            res.probe("same_trace_object_rendered_again")
         trace2.ignore_files_in({"none": "^/nowhere/", "some": "^" + re.escape(PREFIX + "vendor/"), "all": "^" + re.escape(PREFIX)}[k2])
         try:
             trace2.render(io2, False)
@@ -310,8 +315,8 @@ def _run(sc, res, log, store, r):
         res.probe("second_render_other_ignore")
         if type(exc).__name__ not in text2:
             res.violate("name_missing", "second_render", "class name missing in the second rendering")
-        if sc["verbosity"] >= 1:
-            _check_listing(sc, res, text2, k2, nframes, where="second_render:")
+        if v2 >= 1:
+            _check_listing(dict(sc, verbosity=v2), res, text2, k2, nframes, where="second_render:")
 
 
 _SNIP = re.compile(r"^\s*(?P<mark>[→>])?\s*(?P<no>\d+)(?P<delim>[│|]) ?(?P<code>.*)$")
